@@ -123,6 +123,7 @@ def parse_tcp_v1_hint(hint):  # hint_struct -> hint_obj
         return None
     if not ("port" in hint and
             isinstance(hint["port"], int) and
+            not isinstance(hint["port"], bool) and
             0 <= hint["port"] <= 65535):
         # (a number that is no TCP port makes the reactor's connect() raise)
         log.msg(f"invalid port in hint: {hint!r}")
